@@ -360,7 +360,7 @@ func (c *Ctx) specIdent(env *SpecEnv, name string) Value {
 	if sf, ok := c.Eng.Specs.SFuncs[name]; ok && len(sf.Params) == 0 {
 		return c.applySpecFunc(env, sf, nil)
 	}
-	specError("unknown identifier %q in contract (function %s)", name, fnDisplay(c.Fn))
+	specError("unknown identifier %q in contract (function %s) [atLoop=%v frame=%v old=%v]", name, fnDisplay(c.Fn), env.atLoop != nil, env.frame != nil, env.inOld)
 	return nil
 }
 
@@ -1446,6 +1446,10 @@ func callMatches(callee, pat string) bool {
 	if callee == pat {
 		return true
 	}
+	// the summary record of a select statement lists its cases: only patterns about select statements match it
+	if strings.HasPrefix(callee, "select:") && !strings.Contains(pat, "select:") {
+		return false
+	}
 	if strings.HasSuffix(callee, "."+pat) || strings.HasSuffix(callee, ")."+pat) {
 		return true
 	}
@@ -1820,6 +1824,21 @@ func (c *Ctx) checkCalls(st *State, fr *Frame, where string) {
 		return
 	}
 	c.callsAtReturn = where == "return"
+	if os.Getenv("GOVC_DEBUG_CALLS") != "" {
+		fmt.Printf("checkCalls where=%s loops=%d log=%d disc=%v\n", where, len(st.Loops), len(st.CallLog), st.Disc != nil)
+	}
+	c.callsAtLoop = nil
+	{
+		for i := len(st.Loops) - 1; i >= 0; i-- {
+			if al := st.Loops[i]; al.L != nil && al.L.Header.Parent() == fr.Fn {
+				c.callsAtLoop = al.L // clauses judged inside a cut loop see the loop's variables (rangeindex, ...)
+				break
+			}
+		}
+	}
+	if c.callsAtLoop == nil && st.LastLoop != nil && st.LastLoop.Header.Parent() == fr.Fn {
+		c.callsAtLoop = st.LastLoop
+	}
 	for i, cl := range c.Spec.Calls {
 		c.checkCallClause(st, fr, cl, i)
 	}
@@ -1835,6 +1854,58 @@ func (c *Ctx) checkCallClause(st *State, fr *Frame, cl Clause, i int) {
 		lbl = fmt.Sprint(i + 1)
 	}
 	name := fmt.Sprintf("%s/calls#%s", fnDisplay(c.Fn), lbl)
+	if e.Kind == "binary" && e.Op == "==>" && e.Args[0].Kind == "call" && e.Args[0].Args[0].Kind == "ident" && e.Args[0].Args[0].Name == "pair" {
+		// pair(NameA, a, NameB, b) ==> cond: every logged B is preceded by an A (the most recent one is bound to a)
+		pa := e.Args[0].Args
+		if len(pa) != 5 {
+			specError("pair(NameA, a, NameB, b)")
+		}
+		nameA, nameB := pa[1].Name, pa[3].Name
+		first := func(r CallRec) Value {
+			if len(r.Args) > 0 {
+				return r.Args[0]
+			}
+			return r.Ret
+		}
+		n := 0
+		for bi, rb := range st.CallLog {
+			if !callMatches(rb.Callee, nameB) {
+				continue
+			}
+			n++
+			ai := -1
+			for k := bi - 1; k >= 0; k-- {
+				if callMatches(st.CallLog[k].Callee, nameA) {
+					ai = k
+					break
+				}
+			}
+			var t *Term
+			if ai < 0 {
+				t = False()
+			} else {
+				env := c.specEnvFor(st, fr)
+				env.atLoop = c.callsAtLoop
+				if c.callsAtReturn {
+					env.result, env.hasResult = c.curRet, true
+				}
+				env.vars[pa[2].Name] = first(st.CallLog[ai])
+				env.vars[pa[4].Name] = first(rb)
+				t = c.evalBool(env, e.Args[1])
+				if st.CallLog[ai].Cond != nil {
+					t = Implies(st.CallLog[ai].Cond, t)
+				}
+			}
+			if rb.Cond != nil {
+				t = Implies(rb.Cond, t)
+			}
+			c.oblige(st, name, "calls", t, cl.Src, token.NoPos)
+		}
+		if n == 0 {
+			c.oblige(st, name, "calls", True(), cl.Src, token.NoPos)
+		}
+		return
+	}
 	if e.Kind == "binary" && e.Op == "==>" && e.Args[0].Kind == "call" && e.Args[0].Args[0].Kind == "ident" && e.Args[0].Args[0].Name == "call" {
 		pat := e.Args[0].Args[1]
 		pname := pat.Name
@@ -1846,6 +1917,7 @@ func (c *Ctx) checkCallClause(st *State, fr *Frame, cl Clause, i int) {
 			}
 			n++
 			env := c.specEnvFor(st, fr)
+			env.atLoop = c.callsAtLoop
 			if c.callsAtReturn {
 				env.result, env.hasResult = c.curRet, true
 			}
